@@ -60,6 +60,11 @@ BIN_SYSTEMS = {
                  T=(523.15, 823.15), stoich=True, band=5.0),
     'cuti': dict(kind='real', db=('file', 'CuTi.tdb'), elements=['CU', 'TI'], phases=['FCC_A1', 'CU4TI'], guess=0.15,
                  T=(573.15, 773.15), stoich=False, band=50.0),
+    # solute listed after a solvent that sorts behind it (AL < NI): the composition index of pycalphad's alphabetical order is the
+    # other one ("reverse" branch of BinaryThermodynamics).  Ordered L12 precipitate; Gibbs-Thomson energies above 1 kJ/mol pick up
+    # a second, Al-rich FCC_A1 + FCC_L12 tie-line of this database, which is outside the statement: lattice cut at gmax
+    'nial': dict(kind='real', db=('datasets', 'NICRAL_TDB'), elements=['NI', 'AL'], phases=['FCC_A1', 'FCC_L12'], guess=None,
+                 T=(873.15, 1073.15), stoich=False, band=50.0, gmax=1000.0),
     'analytic': dict(kind='analytic', T=(600.0, 1100.0), stoich=True, band=1e-6),
 }
 EXAMPLES = '/repo/examples/'       # data files (mutant copies carry only kawin/)
@@ -184,7 +189,9 @@ def run_binary(case):
             if abs(dev) > tol(glat[j]):
                 bad('DF-at-xalpha/%s' % m, 'g=%g: x_alpha=%r, DF(x_alpha)=%r, expected g + %g (deviation %.4g J/mol > %.3g)'
                     % (glat[j], xs[j], v, OFFSET[m], dev, tol(glat[j])))
-    # supersaturation lattice
+    # supersaturation lattice, kept inside the matrix side of the two-phase field (x below 80 % of the precipitate composition:
+    # beyond the precipitate composition "more solute" is no longer "more supersaturation")
+    slat = [s for s in slat if x0 * (1 + s) < 0.8 * float(xb[0])]
     xl = [x0 * (1 + s) for s in slat]
     DF = {}
     for m, th in ths.items():
@@ -246,7 +253,8 @@ def binary_cases(quick):
     for s, d in BIN_SYSTEMS.items():
         nT = 3 if quick else (25 if d['kind'] == 'real' else 41)
         for T in _lin(d['T'][0], d['T'][1], nT):
-            out.append({'system': s, 'T': round(T, 6), 'g': G_LATTICE_Q if quick else G_LATTICE_T, 's': S_LATTICE_Q if quick else S_LATTICE_T})
+            gl = [g for g in (G_LATTICE_Q if quick else G_LATTICE_T) if g <= d.get('gmax', float('inf'))]
+            out.append({'system': s, 'T': round(T, 6), 'g': gl, 's': S_LATTICE_Q if quick else S_LATTICE_T})
     return out
 
 
@@ -293,6 +301,7 @@ def tarray_cases(quick):
     for s in BIN_SYSTEMS:
         for pattern in T_PATTERNS:
             for gs in ([[0.0, 1000.0, 3000.0]] if quick else [[0.0, 1000.0, 3000.0], [2000.0], [6000.0, 300.0]]):
+                gs = [min(g, BIN_SYSTEMS[s].get('gmax', g)) for g in gs]
                 out.append({'system': s, 'pattern': pattern, 'g': gs})
     return out
 
